@@ -301,6 +301,13 @@ func (maps *trackedMaps) processUnfiltered(ctx context.Context, ef *Filter, filt
 				v.SetMapIndex(key, f)
 
 			case fkind == reflect.Map:
+				// a map which is tracked on its own (a tag pointer led into
+				// it) is swept separately, with its own record of the fields
+				// which were already filtered: sweeping it from here as well
+				// would redact those fields.
+				if _, ok := maps.getTracked(field.Pointer()); ok {
+					continue
+				}
 				newMaps, err := newTrackedMaps(&tMap{value: field})
 				if err != nil {
 					return fmt.Errorf("%s: unable to filter map: %w", op, err)
